@@ -187,6 +187,15 @@ def run(ctx):
 
     r4(ctx)
     r5(ctx)
+    # `sg test` decides with a plain find(matcher), the scanners with the combined scan's kind index: they agree only if the index
+    # is complete (C01 R6's obligations on CombinedScan, re-used here)
+    from . import c01
+    from ..core import Ctx
+    sub = Ctx("C01", ctx.tier, prog)
+    c01.r6(sub)
+    for o in sub.obligations:
+        if "CombinedScan" in o["key"]:
+            ctx.ob("R1", "index agreement/" + o["key"].split(":", 1)[1], o["ok"], o["detail"], where=o["where"], nontrivial=o.get("nontrivial", True))
 
 
 PP = r"^<ast_grep::print::%s as ast_grep::print::PrintProcessor<alloc::vec::Vec<u8>>>::%s$"
